@@ -252,3 +252,60 @@ Proof.
   replace (fwd (pkts pre) + 1) with (cycles s + top (pkts pre) - first_seq (pkts pre) + 1) by lia.
   exact Hf.
 Qed.
+
+(* ------------------------------------------------------------------ monotonicity *)
+Lemma pkts_app a b : pkts (a ++ b) = pkts a ++ pkts b.
+Proof.
+  induction a as [|e a IH]; [reflexivity|]. destruct e; cbn [app pkts]; rewrite IH; reflexivity.
+Qed.
+
+Lemma fwd_from_app : forall l1 m l2,
+  fwd_from m (l1 ++ l2) = fwd_from m l1 + fwd_from (top_from m l1) l2.
+Proof.
+  induction l1 as [|p l1 IH]; intros m l2; cbn [app fwd_from top_from]; [lia|].
+  destruct (uint16_gt (p_seq p) m); rewrite IH; lia.
+Qed.
+
+(* the extended highest sequence number (before reduction mod 2^32), packets_expected and
+   the number of packets received never decrease as the history grows *)
+Lemma fwd_monotone pre more :
+  pkts pre <> [] ->
+  first_seq (pkts (pre ++ more)) = first_seq (pkts pre) /\
+  fwd (pkts pre) <= fwd (pkts (pre ++ more)) /\
+  count (pkts pre) <= count (pkts (pre ++ more)).
+Proof.
+  intros Hne. rewrite pkts_app. destruct (pkts pre) as [|p l]; [contradiction|].
+  cbn [app first_seq fwd]. split; [reflexivity|]. rewrite fwd_from_app.
+  pose proof (fwd_from_nonneg (pkts more) (top_from (p_seq p) l)).
+  unfold count. cbn [length]. rewrite app_length. lia.
+Qed.
+
+(* ------------------------------------------------------------------ "in order" under the window *)
+(* the packets whose true number exceeds every earlier true number *)
+Fixpoint newmax_from (M : Z) (ns : list Z) (l : list pkt) : list pkt :=
+  match ns, l with
+  | n :: ns', p :: l' => if M <? n then p :: newmax_from n ns' l' else newmax_from M ns' l'
+  | _, _ => []
+  end.
+
+Lemma inorder_from_unwrapped : forall ns l M,
+  map p_seq l = map (fun n => n mod 65536) ns -> within_window M ns ->
+  inorder_from (M mod 65536) l = newmax_from M ns l.
+Proof.
+  induction ns as [|n ns IH]; intros l M Hmap Hw; destruct l as [|p l]; try discriminate; [reflexivity|].
+  cbn [map] in Hmap. injection Hmap as Hp Hmap. destruct Hw as [Hn Hw].
+  cbn [inorder_from newmax_from]. rewrite Hp.
+  destruct (gt_unwrapped n M Hn) as [Hgt _]. rewrite Hgt.
+  destruct (M <? n) eqn:E.
+  - apply Z.ltb_lt in E. rewrite Z.max_r in Hw by lia. rewrite (IH l n Hmap Hw). reflexivity.
+  - apply Z.ltb_ge in E. rewrite Z.max_l in Hw by lia. exact (IH l M Hmap Hw).
+Qed.
+
+Lemma inorder_unwrapped h n0 ns :
+  map p_seq h = map (fun n => n mod 65536) (n0 :: ns) -> within_window n0 ns ->
+  inorder h = match h with [] => [] | p :: l => p :: newmax_from n0 ns l end.
+Proof.
+  intros Hmap Hw. destruct h as [|p l]; [reflexivity|].
+  cbn [map] in Hmap. injection Hmap as Hp Hmap. cbn [inorder]. rewrite Hp.
+  rewrite (inorder_from_unwrapped ns l n0 Hmap Hw). reflexivity.
+Qed.
